@@ -11,6 +11,8 @@ pub mod c06;
 pub mod c07;
 pub mod c11;
 pub mod c12;
+pub mod c13;
+pub mod c14;
 pub mod c15;
 pub mod c16;
 pub mod c17;
@@ -26,6 +28,8 @@ pub fn make(id: &str, run: &mut crate::run::Run) -> Option<Box<dyn Prop>> {
 		"C07" => Some(Box::new(c07::C07::new(run))),
 		"C11" => Some(Box::new(c11::C11::new(run))),
 		"C12" => Some(Box::new(c12::C12::new(run))),
+		"C13" => Some(Box::new(c13::C13::new(run))),
+		"C14" => Some(Box::new(c14::C14::new(run))),
 		"C15" => Some(Box::new(c15::C15::new(run))),
 		"C16" => Some(Box::new(c16::C16::new(run))),
 		"C17" => Some(Box::new(c17::C17::new(run))),
@@ -42,13 +46,15 @@ pub fn make_for_replay(id: &str, run: &mut crate::run::Run) -> Option<Box<dyn Pr
 	make(id, run)
 }
 
-pub const ALL: &[&str] = &["C01", "C02", "C03", "C04", "C05", "C06", "C07", "C11", "C12", "C15", "C16", "C17", "C18", "C19"];
+pub const ALL: &[&str] = &["C01", "C02", "C03", "C04", "C05", "C06", "C07", "C11", "C12", "C13", "C14", "C15", "C16", "C17", "C18", "C19"];
 
 /// (runs, max steps per run) per tier
 pub fn budget(id: &str, thorough: bool) -> (u64, usize) {
 	match (id, thorough) {
 		("C06", false) => (120, 70),
 		("C06", true) => (600, 90),
+		("C13", false) => (160, 90),
+		("C13", true) => (3000, 140),
 		(_, false) => (160, 45),
 		(_, true) => (3000, 60),
 	}
@@ -77,6 +83,8 @@ pub fn rule(id: &str) -> String {
 		"C15" => "seeded histories of output-creating operations over several accounts (receive, change incl. multi-change, coinbase, invoice, build_output) with restarts, crashes and failing writes at LMDB commit / stored-tx points in between, and restores from seed followed by a scan; every output record ever committed is observed through the save hook (counted only when its batch commits) and keyed by (wallet, key path); a case is one committed output record or one (restore, account) next-path comparison".into(),
 		"C16" => "seeded multi-account histories incl. cancel-after-broadcast and reorgs, with the scan batch size knob drawn from {1,2,3,5,8,1000} so the PMMR batch loop crosses batch boundaries; then (a) a new wallet from the same mnemonic scanned from a drawn start height, (b) stored-state divergences injected into an up-to-date wallet (output record deleted, Unspent->Spent, Unspent->Locked, stale Unconfirmed record) followed by scan with delete_unconfirmed in {false,true}, (c) the same scan again; a case is one scan (restore/repair x delete flag x start x divergence kinds x batch crossed); non-trivial when a divergence was present, a restore found >=1 output, or a batch boundary was crossed".into(),
 		"C18" => "seeded histories in which a wallet receives, the payment is mined and reported confirmed, then a fork of depth 1..6 is aimed at / just above / just below the receiving block (with or without re-including the transaction, fork length depth+1..2), with refreshes and scans at arbitrary points, sends attempted while reverted, and re-mining; a case is one (scan or refresh, payment on chain?, entry type) observation; non-trivial when the fork removed a payment the wallet had reported confirmed".into(),
+		"C13" => "after a seeded history the real OwnerAPIHandlerV3 of a wallet is driven in-process by sessions of 40-120 requests from a legitimate client (ECDH key exchange, AES-GCM envelopes) and an attacker on the wire: plaintext calls of 13 methods, envelopes under superseded / random keys, replays from before a re-key, bit flips in body or nonce, arrays, nested envelopes, truncated and garbage bodies, malformed key exchanges, re-initialisation in clear and inside an envelope, restarts; a case is one request (kind x method x session epoch); non-trivial when the request is not an honest call under the current key".into(),
+		"C14" => "seeded histories on wallets opened with a keychain mask (restarts give every wallet several successive tokens); at random wallet states every token-taking api::Owner method (14 state-changing / key-deriving / secret-revealing ones and 6 read-only ones) is called with the right token, no token, a random token, the right token with one bit flipped, another wallet's token and the token of a previous open; wallets are closed through close_wallet and called again; at the end the same explicit trace is replayed in an unmasked twin world and step outcomes and a canonical end-state projection (per account value/status/coinbase of outputs, entry types, amounts, confirmations, proofs) are compared; a case is one call (method x token class x open/closed) or one twin comparison; non-trivial when the token is not the right one or the wallet is closed".into(),
 		_ => "seeded histories".into(),
 	}
 }
